@@ -259,13 +259,13 @@ Theorem C36_go_EnumRanges_Has_iff_member : forall l s n,
   Permutation s l -> len s <= 9223372036854775807 ->
   (go_EnumRanges_Has s n = Val true \/ go_EnumRanges_Has s n = Val false) /\
   (go_EnumRanges_Has s n = Val true -> exists r, In r l /\ contains EnumR r n) /\
-  (go_EnumRanges_CheckValid s = GoNil ->
+  (go_EnumRanges_CheckValid s = ENil ->
    (go_EnumRanges_Has s n = Val true <-> exists r, In r l /\ contains EnumR r n)).
 Proof. exact (fun l s n Hp Hl => go_has_iff_member EnumR l s Hp Hl false n). Qed.
 Print Assumptions C36_go_EnumRanges_Has_iff_member.
 
 Example C36_go_EnumRanges_Has_nonvacuous :
-  go_EnumRanges_CheckValid [(-5, -1); (3, 2147483647)] = GoNil /\
+  go_EnumRanges_CheckValid [(-5, -1); (3, 2147483647)] = ENil /\
   go_EnumRanges_Has [(-5, -1); (3, 2147483647)] 2147483647 = Val true /\
   go_EnumRanges_Has [(-5, -1); (3, 2147483647)] 0 = Val false.
 Proof. vm_compute. auto. Qed.
@@ -276,13 +276,13 @@ Theorem C36_go_FieldRanges_Has_iff_member : forall l s ms n,
   Permutation s l -> len s <= 9223372036854775807 ->
   (go_FieldRanges_Has s n = Val true \/ go_FieldRanges_Has s n = Val false) /\
   (go_FieldRanges_Has s n = Val true -> exists r, In r l /\ contains FieldR r n) /\
-  (go_FieldRanges_CheckValid s ms = GoNil ->
+  (go_FieldRanges_CheckValid s ms = ENil ->
    (go_FieldRanges_Has s n = Val true <-> exists r, In r l /\ contains FieldR r n)).
 Proof. exact (fun l s ms n Hp Hl => go_has_iff_member FieldR l s Hp Hl ms n). Qed.
 Print Assumptions C36_go_FieldRanges_Has_iff_member.
 
 Example C36_go_FieldRanges_Has_nonvacuous :
-  go_FieldRanges_CheckValid [(1, 5); (5, 7); (100, 2147483647)] true = GoNil /\
+  go_FieldRanges_CheckValid [(1, 5); (5, 7); (100, 2147483647)] true = ENil /\
   go_FieldRanges_Has [(1, 5); (5, 7); (100, 2147483647)] 6 = Val true /\
   go_FieldRanges_Has [(1, 5); (5, 7); (100, 2147483647)] 2147483646 = Val true /\
   go_FieldRanges_Has [(1, 5); (5, 7); (100, 2147483647)] 2147483647 = Val false /\
@@ -293,8 +293,8 @@ Proof. vm_compute. auto 6. Qed.
    and pairwise disjoint; and it returns the error of the same site as the model, site for site *)
 Theorem C36_go_CheckValid_spec : forall l s ms,
   Permutation s l -> StronglySorted start_le s ->
-  (go_EnumRanges_CheckValid s = GoNil <-> Forall (range_ok EnumR ms) l /\ ForallOrdPairs (disjoint EnumR) l) /\
-  (go_FieldRanges_CheckValid s ms = GoNil <-> Forall (range_ok FieldR ms) l /\ ForallOrdPairs (disjoint FieldR) l) /\
+  (go_EnumRanges_CheckValid s = ENil <-> Forall (range_ok EnumR ms) l /\ ForallOrdPairs (disjoint EnumR) l) /\
+  (go_FieldRanges_CheckValid s ms = ENil <-> Forall (range_ok FieldR ms) l /\ ForallOrdPairs (disjoint FieldR) l) /\
   go_EnumRanges_CheckValid s = cverr_go (check_valid_loop EnumR ms true (0, 0) s) /\
   go_FieldRanges_CheckValid s ms = cverr_go (check_valid_loop FieldR ms true (0, 0) s).
 Proof.
@@ -305,28 +305,28 @@ Qed.
 Print Assumptions C36_go_CheckValid_spec.
 
 Example C36_go_CheckValid_nonvacuous :
-  go_FieldRanges_CheckValid [(1, 5); (4, 7)] false = GoErr "err_overlapping_ranges" /\
-  go_FieldRanges_CheckValid [(1, 536870913)] false = GoErr "err_invalid_field_number" /\
-  go_FieldRanges_CheckValid [(1, 536870913)] true = GoNil /\
-  go_FieldRanges_CheckValid [(5, 5)] false = GoErr "err_invalid_range" /\
-  go_EnumRanges_CheckValid [(1, 5); (5, 7)] = GoErr "err_overlapping_ranges".
+  go_FieldRanges_CheckValid [(1, 5); (4, 7)] false = E_err_overlapping_ranges /\
+  go_FieldRanges_CheckValid [(1, 536870913)] false = E_err_invalid_field_number /\
+  go_FieldRanges_CheckValid [(1, 536870913)] true = ENil /\
+  go_FieldRanges_CheckValid [(5, 5)] false = E_err_invalid_range /\
+  go_EnumRanges_CheckValid [(1, 5); (5, 7)] = E_err_overlapping_ranges.
 Proof. vm_compute. auto 6. Qed.
 
 (* CheckOverlap as written in the source: never panics / runs out of fuel, and reports an error iff
    a range of one list intersects a range of the other, for lists that pass the translated CheckValid *)
 Theorem C36_go_CheckOverlap_spec : forall p q ps qs msp msq,
   Permutation ps p -> Permutation qs q -> len ps + len qs <= 9223372036854775807 ->
-  go_FieldRanges_CheckValid ps msp = GoNil -> go_FieldRanges_CheckValid qs msq = GoNil ->
-  (go_FieldRanges_CheckOverlap ps qs = Val GoNil \/
-   go_FieldRanges_CheckOverlap ps qs = Val (GoErr "err_overlapping_ranges")) /\
-  (go_FieldRanges_CheckOverlap ps qs = Val (GoErr "err_overlapping_ranges") <->
+  go_FieldRanges_CheckValid ps msp = ENil -> go_FieldRanges_CheckValid qs msq = ENil ->
+  (go_FieldRanges_CheckOverlap ps qs = Val ENil \/
+   go_FieldRanges_CheckOverlap ps qs = Val E_err_overlapping_ranges) /\
+  (go_FieldRanges_CheckOverlap ps qs = Val E_err_overlapping_ranges <->
    exists rp rq, In rp p /\ In rq q /\ intersects FieldR rp rq = true).
 Proof. exact go_check_overlap_spec. Qed.
 Print Assumptions C36_go_CheckOverlap_spec.
 
 Example C36_go_CheckOverlap_nonvacuous :
-  go_FieldRanges_CheckOverlap [(1, 5); (10, 20)] [(5, 10); (19, 30)] = Val (GoErr "err_overlapping_ranges") /\
-  go_FieldRanges_CheckOverlap [(1, 5); (10, 20)] [(5, 10); (20, 30)] = Val GoNil.
+  go_FieldRanges_CheckOverlap [(1, 5); (10, 20)] [(5, 10); (19, 30)] = Val E_err_overlapping_ranges /\
+  go_FieldRanges_CheckOverlap [(1, 5); (10, 20)] [(5, 10); (20, 30)] = Val ENil.
 Proof. vm_compute. auto. Qed.
 
 (* the accessors and the number check of the source are those of the model (fieldRange.End wraps in int32),
